@@ -18,11 +18,18 @@
    real object is bound by replaying the history (harness: `obj new/cut/gen/clean`, `setbox`,
    `setpos`).
 
+   MCNbHistOne: two Generate calls (with and without a Cleanup between them) over frames = boxes x
+   position sets, so that every history in which exactly ONE thing changes between the calls -
+   only the cutoff (up / down), only the positions, only the bead lists, only the box - occurs; the
+   position set P1 has beads 5 lattice units apart, i.e. neighbours only for the larger cutoff and
+   two cells apart in the 4-cell layout of the smaller one (a layout kept from the previous call
+   misses them).
    Frames: sequence of [B, pos]; the topology (bead types, molecules, interactions) is fixed
    per history.  Only (frame, cutoff) combinations inside the statement's domain are generated. *)
 EXTENDS NbGridMC
 
-CONSTANTS Frames, Cuts, PRuns, TRuns, Top, Depth
+CONSTANTS Frames, Cuts, PRuns, TRuns, Top, Depth,
+          MaxGens     \* at most this many Generate calls per history (= Depth: no restriction)
 VARIABLES kind, cut, stored, clean, h
 hvars == <<kind, cut, stored, clean, h, c, ph>>
 
@@ -55,7 +62,8 @@ Clean ==
   /\ stored' = {} /\ clean' = TRUE
   /\ UNCHANGED <<kind, cut, c, ph>>
 
-HNext == /\ Len(h) < Depth
+NGens == Cardinality({q \in 1..Len(h) : h[q].a = "gen"})
+HNext == /\ Len(h) < Depth /\ NGens < MaxGens
          /\ \/ \E f \in 1..Len(Frames), rc2 \in Cuts, r \in PRuns \cup TRuns : Gen(f, rc2, r)
             \/ Clean
 
@@ -69,6 +77,6 @@ StoredIsUnion ==
               ELSE U(q - 1) \cup (IF kind = "p" THEN {<<w[1], w[2]>> : w \in h[q].rows} ELSE h[q].rows)
   IN OldRows(kind, stored) = U(Len(h))
 \* a last step that is a Cleanup tells nothing new: export only histories ending in a Generate
-HLeaf == (Emit /\ Len(h) = Depth /\ h[Len(h)].a = "gen") =>
+HLeaf == (Emit /\ h # <<>> /\ h[Len(h)].a = "gen" /\ (Len(h) = Depth \/ NGens = MaxGens)) =>
            PrintT(ToJson([kind |-> kind, typ |-> Top.typ, mol |-> Top.mol, ias |-> Top.ias, h |-> h]))
 =============================================================================
